@@ -411,7 +411,9 @@ Definition check_case (k : case) : N :=
 Inductive ccase :=
 | KC_session (k : case)
 | KC_trace (ops : list cop) (newfile : fimg)
-| KC_image (old : fimg) (idx_after : option (index * name)) (hyd_is_old_or_new : bool).
+| KC_image (old : fimg) (idx_after : option (index * name)) (hyd_is_old_or_new : bool)
+| KC_conc (init : option fimg) (cname : name) (writes : list wr) (destroyed : bool)
+          (final : option (index * name)).
 
 (* code 1: the observed op sequence is not "complete new file, fsync, then one rename" *)
 Definition check_trace (ops : list cop) (newfile : fimg) : N :=
@@ -428,11 +430,36 @@ Definition check_image (old : fimg) (after : option (index * name)) (okfile : bo
   | None, _ => 0
   end.
 
+(* [KC_conc]: a compaction entry point ran concurrently with other calls on the same chronicler
+   (parked just before its rename while a Write / Sync / Close / Destroy was issued, or plain
+   stress). [writes]: every treasure whose Write returned, the per-goroutine sequences
+   concatenated (the goroutines write disjoint key sets, so every interleaving has the same
+   per-key subsequences and hence the same result: spec_apply_lookup_filter). [final]: the real
+   LoadIndex after everything returned and the chronicler was closed.
+   codes: 2-6 as for sessions; 8 a destroyed swamp has a .hyd again. *)
+Definition check_conc (init : option fimg) (cname : name) (writes : list wr) (destroyed : bool)
+                      (final : option (index * name)) : N :=
+  if destroyed then match final with None => 0 | Some _ => 8 end else
+  let start := match init with
+               | Some f => load_index f
+               | None => Some ([], cname)
+               end in
+  match start, final with
+  | Some (ix, nm), Some (ix', nm') =>
+      match classify_diff (spec_apply ix writes) ix' with
+      | 0 => if (nm' =? nm) || ((nm =? 0) && (nm' =? cname)) then 0 else 6
+      | c => c
+      end
+  | Some (ix, nm), None => match writes, init with [], None => 0 | _, _ => 2 end
+  | None, _ => 0
+  end.
+
 Definition check_ccase (k : ccase) : N :=
   match k with
   | KC_session c => check_case c
   | KC_trace ops nf => check_trace ops nf
   | KC_image old after okfile => check_image old after okfile
+  | KC_conc init cname writes destroyed final => check_conc init cname writes destroyed final
   end.
 
 Definition check_all (cases : list ccase) : list verdict := check_cases check_ccase cases.
